@@ -166,6 +166,17 @@ def structured_cell(rng):
                                Address((-1, bytes(rng.getrandbits(8) for _ in range(32)))), CurrencyCollection(rng.randint(0, 10 ** 9)), 0, 0, 5, 7)
         body = Builder().store_uint(rng.getrandbits(32), 32).store_ref(Builder().store_uint(7, 8).end_cell()).end_cell()
         return {'as': k}, MessageAny(info, None, body).serialize()
+    if rng.random() < 0.5:
+        # vm_stk_slice over a proper sub-window [st, end) of the bits and references of its cell (what get-method answers carry)
+        kids = [Builder().store_uint(j + 1, 8).end_cell() for j in range(3)]
+        target = Builder().store_uint(rng.getrandbits(32), 32)
+        for kd in kids:
+            target.store_ref(kd)
+        target = target.end_cell()
+        sb, eb, sr, er = rng.choice([(8, 24, 1, 2), (0, 16, 0, 1), (4, 32, 2, 3), (0, 32, 1, 3)])
+        stack = (Builder().store_uint(1, 24).store_ref(Builder().end_cell()).store_uint(4, 8).store_ref(target)
+                 .store_uint(sb, 10).store_uint(eb, 10).store_uint(sr, 3).store_uint(er, 3).end_cell())
+        return {'as': 'vmstack'}, stack
     from pytoniq_core.tlb.vm_stack import VmStack
     vals = [rng.randint(-5, 5), Builder().store_uint(rng.getrandbits(8), 8).end_cell(), [1, [2, 3]], None][:rng.randint(1, 4)]
     return {'as': 'vmstack'}, VmStack.serialize(vals)
